@@ -19,3 +19,9 @@ chk("C10", "exploration", "runtime monitor over constructed game histories: Chec
 chk("C15", "exploration", "runtime metamorphic monitor: Evaluate vs repeated / fresh-instance / fresh-position / post-excursion / colour-mirror evaluations under 5 evaluation configurations",
     "Held-on-what-was-explored; each Evaluate result has 5 sibling results that must be identical.",
     "Trusted: refchess mirror. History dependence through D1 is a known finding keyed to games whose phase sum exceeded 24.")
+chk("C17", "exploration", "runtime round-trip monitor: UCI/SAN strings rendered by the engine and by refchess parsed back through GetMoveFromUci/GetMoveFromSan/ValidateMove, with negative cases; exhaustive enumeration of the packed move encoding",
+    "Notation: held-on-what-was-explored over all legal moves of generated positions x notation variants. Encoding: the 65,536 field combinations are enumerated completely, the full value range on a 512-move subset.",
+    "Trusted: refchess SAN renderer (Appendix A variants). Lenient aliases accepted by the parser are not judged.")
+chk("C18", "exploration", "exhaustive runtime comparison of every precomputed table lookup with ray walking on (file,rank) coordinates: all line subsets for rook/bishop per square, all square pairs, all masks, shifts",
+    "Finite domain enumerated in both tiers for sliders (every subset of the piece's lines), pairs and masks; queen and shifts additionally sampled on random occupancies.",
+    "Trusted: the ray-walk oracle and the geometric definitions documented in bitboard.go.")
